@@ -200,7 +200,19 @@ func run(r *vt.Run, t vt.TB, s spec) {
 		}
 		return `"` + strings.ReplaceAll(c, `"`, `""`) + `"`
 	}
-	for i, p := range s.Pick {
+	picks := append([]int{}, s.Pick...)
+	for i, c := range allCols {
+		if c == "*" && s.Star >= 0 && s.K%2 == 0 {
+			// the wildcard, then the column that is itself called `*`
+			for len(picks) <= s.Star {
+				picks = append(picks, s.K+len(picks))
+			}
+			picks[s.Star] = i
+			r.Count("select:wildcard-before-a-column-called-star", 1)
+			break
+		}
+	}
+	for i, p := range picks {
 		if i == s.Star {
 			sel = append(sel, "*")
 			items = append(items, starItem)
@@ -211,7 +223,7 @@ func run(r *vt.Run, t vt.TB, s spec) {
 		items = append(items, c)
 		expanded = append(expanded, c)
 	}
-	if len(sel) == 0 || s.Star >= len(s.Pick) {
+	if len(sel) == 0 || s.Star >= len(picks) {
 		sel = append(sel, "*")
 		items = append(items, starItem)
 		expanded = append(expanded, allCols...)
